@@ -133,8 +133,13 @@ def carryOf (mode : Mode) (signX : Nat) (arr : Bytes) (n : Nat) (decExpon : Int)
     let b : Nat ← arr[34]?
     let digit : Nat ← toDigit10 b    -- `char::to_digit(buffer[i], 10).unwrap()`
     let carry : Nat := if (4 : Int) - (digit : Int) < 0 then 1 else 0
-    let tail ← slice arr 34 n
-    some (if decExpon < 0 ∧ anyAboveZero tail then 1 else carry)
+    if decExpon < 0 then
+      -- lines 611–616: a sticky digit instead of a rounding here; none at 34 or more places below the least quantum
+      if decExpon > -34 then do
+        let tail ← slice arr 34 n
+        some (if anyAboveZero tail then 1 else 0)
+      else some 0
+    else some carry
 
 /-- `decExpon` = `dec_expon` after line 554; `setInexact` = `set_inexact` -/
 def largePath (mode : Mode) (signX : Nat) (arr : Bytes) (n : Nat) (decExpon : Int) (setInexact : Bool) :
